@@ -1,5 +1,6 @@
 import IdspModel.Model.Coeff
 import IdspModel.Model.Num
+import IdspModel.Model.Filter
 /-! Float instances of the coefficient-builder model for the driver (Lean `Float` = IEEE binary64).
     Results are compared with the crate's f64 results with a relative tolerance (libm differs in the last ulp). -/
 namespace Idsp
@@ -32,5 +33,27 @@ def fclose (a b : Float) (tol : Float) : Bool :=
   if a.isNaN || b.isNaN then a.isNaN && b.isNaN
   else if a == b then true
   else (a - b).abs ≤ tol * (a.abs + b.abs) || (a - b).abs ≤ 1e-300
+
+/-- `f64::copysign`: magnitude of `x`, sign bit of `s` -/
+def fcopysign (x s : Float) : Float :=
+  Float.ofBits ((x.toBits &&& 0x7fffffffffffffff) ||| (s.toBits &&& 0x8000000000000000))
+
+/-- f64 -> i32/i64 `as` cast (saturating, NaN -> 0) -/
+def fToInt (w : Nat) (v : Float) : Int :=
+  if v.isNaN then 0 else
+  let lo : Int := -(2 ^ (w - 1))
+  let hi : Int := 2 ^ (w - 1) - 1
+  if v ≤ Float.ofInt lo then lo else if v ≥ Float.ofInt hi then hi else
+    let t := if v < 0 then v.ceil else v.floor
+    (if t < 0 then -((-t).toUInt64.toNat : Int) else (t.toUInt64.toNat : Int))
+
+/-- glue of `Pid::<f64>::build::<C, f64>(period, b_scale, y_scale)`: the gains/limits handed to `PidBuilder` -/
+def pidReprArgs (gain limit : List Float) (bScale : Float) : List Float × List (Option Float) :=
+  let p := gain.getD 2 0
+  (gain.map fun g => bScale * fcopysign g p,
+   limit.map fun l =>
+     let l := if l.isNaN then Float.ofBits 0x7ff0000000000000 else l
+     let v := bScale * fcopysign l p
+     if v.isInf then none else some v)
 
 end Idsp
